@@ -322,6 +322,36 @@ def run(ctx):
                 fails.append({"why": "%s safe_mode=0: raising recalculate_coordinates_this_timestep 6 times while unsynchronized differs from "
                               "synchronizing first by %.3g (energy error %.3g vs %.3g)" % (integ, dd, res[0][0], res[1][0]),
                               "integrator": integ, "options": {"safe_mode": 0}, "N": 4, "seed_case": seed_, "steps": 240})
+    # "these invariants also hold across synchronisation": a run that ENTERS integrate() unsynchronized (safe_mode 0 after
+    # manual steps) with a target closer than one step -- so that the first step of the call is also its shortened last
+    # step -- must equal a twin that is synchronized by hand before every integrate() call, and keep the energy level
+    for integ, opt in (("whfast", "ri_whfast"), ("saba", "ri_saba"), ("eos", "ri_eos"), ("mercurius", "ri_mercurius")):
+        for rep in range(ctx.scale(1, 4)):
+            seed_ = rng.randrange(1 << 30); res = []
+            frac = rng.choice([0.3, 0.07, 0.9])
+            try:
+                for mode in ("unsynchronized-entry", "hand-synchronized"):
+                    import random as _random
+                    sim = rand_system(rebound, _random.Random(seed_), 3); sim.integrator = integ
+                    getattr(sim, opt).safe_mode = 0
+                    sim.dt = 2 * math.pi * math.sqrt(1.6 ** 3 / sim.G) / 97
+                    E0 = sim.energy(); e_ = 0.0
+                    with warnings.catch_warnings():
+                        warnings.simplefilter("ignore")
+                        for cyc in range(ctx.scale(40, 200)):
+                            sim.steps(7)
+                            if mode == "hand-synchronized": sim.synchronize()
+                            sim.integrate(sim.t + frac * sim.dt)
+                            e_ = max(e_, abs((sim.energy() - E0) / E0))
+                    res.append((e_, [(p.x, p.y, p.z, p.vx, p.vy, p.vz) for p in sim.particles]))
+            except Exception as ex:
+                fails.append({"why": "exception in unsynchronized-entry run: %r" % (ex,), "integrator": integ}); continue
+            dd = max(abs(a - b) for pa, pb in zip(res[0][1], res[1][1]) for a, b in zip(pa, pb))
+            ctx.case(key=("unsync-entry", integ, frac))
+            if not (dd < 1e-9 and res[0][0] < 10 * res[1][0] + 1e-12):
+                fails.append({"why": "%s safe_mode=0: steps(7); integrate(t+%.2g*dt) repeated differs from the twin that synchronizes before each "
+                              "integrate() by %.3g (max energy error %.3g vs %.3g)" % (integ, frac, dd, res[0][0], res[1][0]),
+                              "integrator": integ, "options": {"safe_mode": 0}, "N": 3, "seed_case": seed_, "frac": frac})
     # merging collisions: mass, momentum, COM
     for rep in range(ctx.scale(10, 100)):
         sim = rebound.Simulation()
@@ -407,4 +437,5 @@ def run(ctx):
         "theorems are in exact arithmetic (Coq reals); rounding-level drift of P and L and the energy accuracy class are measured by the searcher with generous envelopes",
         "energy 'bounded and non-drifting' and 'machine precision for IAS15' are NOT theorems (backward error analysis); thresholds per class are empirical",
         "WH-family operators (Kepler, jump, interaction in Jacobi/DH/WHDS coordinates) conserve P and L by theorems of C03/C12/C02 where proved; here they are covered by the searcher",
+        "C04_merge_conserves_mass_momentum_com is about C13's model of reb_collision_resolve_merge + removal; that model is tied to the library bit-for-bit by C13's correspondence (reb_collision_search with the merge resolver), not by this check; this check measures the conservation on the real library through mergers for every integrator",
     ]
